@@ -63,6 +63,18 @@ if kind in ("numbering", "any"):
 sys.exit(1 if bad else 0)
 '''
 
+REPLAY_MERGE_SEAM = r'''
+import sys
+from corr.C20_partition import run_merge
+case = %(case)r
+res = run_merge(case)
+if "error" in res:
+    print("Mesh.Merge raised:", res["error"]); sys.exit(1)
+p = case["perturb"]
+print("cell size", case["coord_scale"], "seam distance", p["delta"], "(documented absolute tolerance 1e-12): merged nodes", res["Nn"], "expected", %(expected)r)
+sys.exit(1 if res["Nn"] != %(expected)r else 0)
+'''
+
 REPLAY_MERGE = r'''
 import sys
 from corr.C20_partition import run_merge
@@ -98,6 +110,10 @@ else:
         expect = len(set(geo_in)) if (case["unique"] and case["mergePoints"]) else None
         print(t, ": input elements", len(geo_in), "distinct", len(set(geo_in)), "merged", len(geo_out))
         bad = bad or set(geo_in) != set(geo_out) or (expect is not None and len(geo_out) != expect) or (not case["unique"] and len(geo_out) != len(geo_in))
+    if not all(res.get("inputs_recovered", [True])):
+        print("merged.coord[mapping[i]] == mesh_i.coord per input:", res["inputs_recovered"]); bad = True
+    if res.get("two_step"):
+        print("merge of merges:", res["two_step"]); bad = bad or not (res["two_step"]["points_equal"] and res["two_step"]["elements_equal"])
     if "area_expected" in case and res.get("area") is not None:
         print("area", res["area"], "expected", case["area_expected"])
         bad = bad or abs(res["area"] - case["area_expected"]) > 1e-10 * max(1.0, case["area_expected"])
@@ -193,11 +209,13 @@ def gen_merge(ctx):
         cases.append({"id": i, "meshes": meshes, "mergePoints": rng.random() < 0.8, "unique": rng.random() < 0.5,
                       "relation": relation})
     cases += gen_merge_structured(ctx, len(cases))
+    cases += gen_merge_mixed_dims(ctx, len(cases))
     # scaled twins of some lists: spacing 2^-23 (~1e-7) and 2^7 in physical units, far from Merge's ABSOLUTE
     # tolerance 1e-12 (below a spacing of ~1e-12 distinct nodes are identified by documentation: not claimed)
     import copy as _copy
     twins = []
-    for c0 in rng.sample(cases, min(len(cases), 4 if ctx.tier == "quick" else 16)):
+    plain = [c for c in cases if not c.get("perturb")]
+    for c0 in rng.sample(plain, min(len(plain), 4 if ctx.tier == "quick" else 16)):
         c1 = _copy.deepcopy(c0)
         c1["id"] = len(cases) + len(twins)
         c1["coord_scale"] = rng.choice([2.0 ** -20, 2.0 ** 10])
@@ -283,6 +301,52 @@ def gen_merge_structured(ctx, first_id):
     return cases
 
 
+def gen_merge_mixed_dims(ctx, first_id):
+    """lists mixing dimensions with DISJOINT nodes (plate + free-standing SEG2 strut / POINT-free), merge of merges,
+    and seams perturbed by an absolute distance below / above the documented tolerance 1e-12."""
+    rng = ctx.rng
+    quick = ctx.tier == "quick"
+    cases = []
+
+    def strut(x0, y0, n, horizontal=True):
+        pts = [[x0 + 8 * k * (1 if horizontal else 0), y0 + 8 * k * (0 if horizontal else 1), 0] for k in range(n + 1)]
+        perm = list(range(len(pts)))
+        rng.shuffle(perm)
+        inv = {old: new for new, old in enumerate(perm)}
+        return {"coords": [pts[o] for o in perm], "groups": {"SEG2": [[inv[k], inv[k + 1]] for k in range(n)]}, "nx": n, "ny": 0}
+
+    for rep in range(1 if quick else 3):
+        nx, ny = rng.randint(1, 3), rng.randint(1, 2)
+        plate = _grid_mesh(rng, nx, ny, 0, 0, use_tri=rng.random() < 0.5)
+        free = strut(8 * (nx + 2), 8, rng.randint(1, 3))                    # disjoint from the plate
+        attached = strut(8 * nx, 0, 2)                                      # starts on a plate corner
+        plate2 = _grid_mesh(rng, 2, 1, 8 * (nx + 6), 16)
+        fams = [("plate+free-strut", [plate, free]), ("strut+plate", [free, plate]),
+                ("plate+attached-strut+free-strut", [plate, attached, free]),
+                ("plate+strut+plate", [plate, free, plate2]), ("struts-only", [free, strut(0, 80, 2, False), attached])]
+        for name, meshes in fams:
+            for mp, un in ((True, True), (False, False)) if not quick else ((True, rng.random() < 0.5),):
+                c = {"id": first_id + len(cases), "meshes": meshes, "mergePoints": mp, "unique": un, "relation": "mixed-dim:" + name}
+                if len(meshes) >= 3:
+                    c["two_step"] = rng.choice([2, len(meshes) - 1]) if len(meshes) > 2 else 2
+                cases.append(c)
+    # merge of merges on same-dimension lists too
+    for rep in range(2 if quick else 6):
+        k = rng.choice([3, 4])
+        meshes = [_grid_mesh(rng, 2, 1, 16 * i - (8 if rep % 2 else 0) * i, 0, use_tri=rng.random() < 0.5) for i in range(k)]
+        cases.append({"id": first_id + len(cases), "meshes": meshes, "mergePoints": True, "unique": rng.random() < 0.5,
+                      "relation": "merge-of-merges", "two_step": rng.randint(2, k - 1)})
+    # absolute tolerance, as documented: seam nodes 1e-13 apart are glued, 1e-11 apart are not - at sizes 1e-3 and 1e3
+    for size in (1e-3, 1e3):
+        for delta, glue in ((1e-13, True), (1e-11, False)):
+            a = _grid_mesh(rng, 2, 2, 0, 0, permute=False)
+            b = _grid_mesh(rng, 2, 2, 16, 0, permute=False)
+            seam = [j for j, p in enumerate(b["coords"]) if p[0] == 16]
+            cases.append({"id": first_id + len(cases), "meshes": [a, b], "mergePoints": True, "unique": True, "relation": "seam-%g-at-size-%g" % (delta, size),
+                          "coord_scale": size, "perturb": {"mesh": 1, "nodes": seam, "delta": delta, "glue": glue}})
+    return cases
+
+
 def merge_expected_area(c):
     """exact area (cells of side 1 in physical units): each distinct geometric element once when
     duplicates are removed after point merging, every input element otherwise."""
@@ -290,7 +354,8 @@ def merge_expected_area(c):
     for m in c["meshes"]:
         for t, rows in m["groups"].items():
             for row in rows:
-                geo.append((frozenset(tuple(m["coords"][n]) for n in row), 1.0 if t == "QUAD4" else 0.5))
+                if t in ("QUAD4", "TRI3"):
+                    geo.append((frozenset(tuple(m["coords"][n]) for n in row), 1.0 if t == "QUAD4" else 0.5))
     if c["unique"] and c["mergePoints"]:
         return float(sum(dict(geo).values()))
     if c["unique"]:
@@ -663,9 +728,37 @@ def merge_predicates(m, r):
             probs.append(("duplicate-elements-kept", "%s: %d merged elements for %d distinct input elements" % (t, len(gout), len(set(gin)))))
         elif not m["unique"] and len(gout) != len(gin):
             probs.append(("elements", "%s: %d merged elements for %d input elements without duplicate removal" % (t, len(gout), len(gin))))
+    if not all(r.get("inputs_recovered", [True])):
+        bad_i = [i for i, ok in enumerate(r["inputs_recovered"]) if not ok]
+        probs.append(("coords-of-inputs", "merged.coord[mapping[i]] != mesh_i.coord for input(s) %s (groups %s)" % (bad_i, [sorted(m["meshes"][i]["groups"]) for i in bad_i])))
+    ts = r.get("two_step")
+    if ts and not (ts["points_equal"] and ts["elements_equal"]):
+        probs.append(("merge-of-merges", "Merge([Merge(first %s), rest]) has %d nodes, the one-step merge %d; same points: %s, same elements: %s"
+                      % (m.get("two_step"), ts["Nn_two_step"], ts["Nn_one_step"], ts["points_equal"], ts["elements_equal"])))
     if r.get("area") is not None and "area_expected" in m and abs(r["area"] - m["area_expected"]) > 1e-10 * max(1.0, m["area_expected"]):
         probs.append(("area", "area %.12g, expected %.12g" % (r["area"], m["area_expected"])))
     return probs
+
+
+def judge_perturbed_seam(ctx, m, r):
+    """the documented tolerance of Mesh.Merge is ABSOLUTE (mergePointsTol = 1e-12): seam nodes 1e-13 apart are one
+    node, 1e-11 apart are two, whatever the size of the meshes."""
+    pert = m["perturb"]
+    na, nb = len(m["meshes"][0]["coords"]), len(m["meshes"][1]["coords"])
+    nseam = len(pert["nodes"])
+    expected = na + nb - nseam if pert["glue"] else na + nb
+    # seam partners in mesh 0: same integer coordinates
+    pos0 = {tuple(p): j for j, p in enumerate(m["meshes"][0]["coords"])}
+    partners = [(pos0[tuple(m["meshes"][1]["coords"][j])], j) for j in pert["nodes"]]
+    same = [r["mapping"][0][a] == r["mapping"][1][b] for a, b in partners]
+    ok = r["Nn"] == expected and (all(same) if pert["glue"] else not any(same)) and all(r.get("inputs_recovered", [True]))
+    ctx.note_case("merge:%s" % m["relation"])
+    ctx.obligation("corr:merge-absolute-tolerance:%s" % m["relation"], ok, "%d nodes, expected %d" % (r["Nn"], expected))
+    if not ok:
+        ctx.violation("merge:absolute-tolerance:%s" % ("not-glued-within-tol" if pert["glue"] else "glued-beyond-tol"),
+                      "Mesh.Merge of two 2x2 plates of cell size %g whose seam nodes are %g apart (documented ABSOLUTE tolerance 1e-12): %d merged nodes, expected %d (%s)"
+                      % (m["coord_scale"], pert["delta"], r["Nn"], expected, "seam nodes must be identified" if pert["glue"] else "seam nodes must stay distinct"),
+                      {"replay_py": REPLAY_MERGE_SEAM % dict(case=m, expected=expected), "case": m, "impl_Nn": r["Nn"]})
 
 
 def run_merge(ctx, merges, results):
@@ -675,6 +768,9 @@ def run_merge(ctx, merges, results):
     ok_ids = []
     for m in merges:
         r = by_id.get(m["id"])
+        if m.get("perturb") and r is not None and "error" not in r:
+            judge_perturbed_seam(ctx, m, r)
+            continue
         if r is None or "error" in r or not r.get("coords_exact", False):
             mixed = any(len(mesh["groups"]) > 1 for mesh in m["meshes"])
             err = str((r or {}).get("error", "inexact coordinates"))
